@@ -12,6 +12,6 @@ def doneCaseOf (op : String) : Bool :=
 /-- the `Facts` of the code as extracted -/
 def factsOfCode : Facts :=
   ⟨loopHeadCheck, doneCaseOf "OpReceive", doneCaseOf "OpSend", doneCaseOf "OpSelect",
-   doneCaseOf "OpRange", stopSetsDone⟩
+   doneCaseOf "OpRange", stopSetsDone, epilogueForEveryVM⟩
 
 end ScriggoV.Cancel
